@@ -2,6 +2,10 @@
 layout moves of C09, the token mutations of C07 and the instruction-list checks of C15."""
 
 TOUR = [
+    # statements separated by colons written tight (no blank before the colon): on a plain line, in both branches of a
+    # one-line IF, after a label line, in a loop written on one line
+    'X% = 2: Y% = 3: PRINT X%; Y%\r\nIF X% = 1 THEN PRINT "one": PRINT "still one" ELSE PRINT "two": PRINT "still two"\r\n'
+    'IF Y% = 3 THEN X% = 5: PRINT "set"\r\nFOR I% = 1 TO 2: PRINT I%: NEXT\r\nWHILE X% > 3: X% = X% - 1: WEND\r\nPRINT X%: PRINT "end"\r\n',
     # DEFtype letter ranges
     'DEFINT A-Z\r\nDEFSTR S\r\nDEFLNG L-M, P\r\nDEFSNG X\r\nDEFDBL D-E\r\nA = 3\r\nS = "x"\r\nL = 70000\r\nD = 2.5\r\nPRINT A; S; L; D\r\n',
     # parameterless SUB calls and statements that are a single word
